@@ -92,6 +92,11 @@ func (a *Application) providerProxyHandler(w http.ResponseWriter, r *http.Reques
 	}
 
 	if len(endpoints) == 0 {
+		// distinguish "model routing rejected it" (404 unknown model / 503 model only on
+		// unhealthy endpoints) from "no endpoint of this provider at all"
+		if a.writeRoutingRejection(w, pr) {
+			return
+		}
 		http.Error(w, fmt.Sprintf("No %s endpoints available", providerType), http.StatusNotFound)
 		return
 	}
